@@ -50,3 +50,10 @@ Proof.
     exact (Hd x (or_introl eq_refl) Hin).
   - apply IH. intros y Hy1 Hy2. exact (Hd y (or_intror Hy1) Hy2).
 Qed.
+
+Lemma combine_app_eq A B (a1 a2 : list A) (b1 b2 : list B) :
+  length a1 = length b1 -> combine (a1 ++ a2) (b1 ++ b2) = combine a1 b1 ++ combine a2 b2.
+Proof.
+  revert b1; induction a1 as [|x a1 IH]; intros [|y b1] H; cbn [length] in H; try discriminate; [reflexivity|].
+  cbn [app combine]. f_equal. apply IH. lia.
+Qed.
